@@ -253,7 +253,7 @@ def run(ctx):
             return True
         succ = [o for o in routs if sem.is_ok_result(o.val)]
         errs = [o for o in routs if sem.is_err_result(o.val)]
-        short = [o for o in succ if not sem.calls(o, lambda c: 'take' in c.rsplit('::', 1)[-1])]
+        short = [o for o in succ if not sem.calls(o, lambda c: 'take' in c.rsplit('::', 1)[-1] or c == 'lber::parse::parse_uint')]
         longp = [o for o in succ if o not in short]
         ok_dom = len(short) == 1 and len(longp) == 1
         bad = []
@@ -288,14 +288,42 @@ def run(ctx):
                 # the octets taken are what parse_uint reads, from the input right after the first octet
                 app = [c for c in sem.calls(o, lambda c: c == '<indirect>') if sem.strip_site(c[2][0]) == sem.strip_site(('call', tk[0][1], tk[0][2], None))]
                 okr = okr and len(app) == 1 and sem.strip_site(app[0][2][1]) == REST and sem.has(pu[0][2][0], lambda y: y[0] == 'call' and y[1] == '<indirect>')
+        shortfall_count = None
+        if not okr and len(longp) == 1:
+            # the same read written by hand: the input after the first octet is cut at `count` (split_at / slicing), after a test that
+            # `count` octets are there; the first part is what parse_uint reads, the second part is the remainder returned
+            o = longp[0]
+            pu = sem.calls(o, lambda c: c == 'lber::parse::parse_uint')
+            sp = sem.calls(o, lambda c: c.rsplit('::', 1)[-1] == 'split_at')
+            if len(pu) == 1 and len(sp) == 1 and sem.strip_site(sp[0][2][0]) == REST:
+                cnt = sem.strip_site(sp[0][2][1])
+                spt = sem.strip_site(('call', sp[0][1], sp[0][2], None))
+                try:
+                    okr = all(absx.eval_term(cnt, {X: x}) == x - 128 for x in range(128, 256))
+                except absx.NotEvaluable:
+                    okr = False
+                v = sem.strip_site(o.val)
+                rem = v[2][0][1][0] if v[0] == 'ctor' and v[2] and v[2][0][0] == 'tuple' else None
+                enough = any(t is False and sem.strip_site(a) == ('bin', 'Lt', ('call', a[2][1], (REST,), None), cnt) for a, t in o.st.pc
+                             if a[0] == 'bin' and a[1] == 'Lt' and a[2][0] == 'call' and a[2][1].rsplit('::', 1)[-1] in ('len', 'input_len'))
+                okr = okr and enough and sem.strip_site(pu[0][2][0]) == ('field', spt, '0') and rem == ('field', spt, '1')
+                if okr:
+                    shortfall_count = cnt
         ctx.add('B2.reader-long-form', 'len - 128 octets', loc(RL.root), okr,
-                'reader long form must take exactly (first octet - 128) octets with nom\'s streaming take from the input after the first octet and read them as an unsigned integer')
+                'reader long form must take exactly (first octet - 128) octets from the input after the first octet - with nom\'s streaming take, or by hand after testing that they are there - and read them as an unsigned integer')
         n_rej = 0
         for o in errs:
             cause = sem.failed(o, lambda v: sem.has(v, lambda y: y[0] == 'call' and (y[1] in ('nom::number::streaming::be_u8', '<indirect>', 'lber::parse::parse_uint') or 'TryFrom' in y[1] or y[1].endswith('::try_from') or y[1].endswith('::try_into'))))
             n_rej += 1
+            if not cause and shortfall_count is not None:
+                # hand-written read: fewer than `count` octets buffered - the only acceptable answer is Incomplete (ask for more)
+                short_in = any(t is True and a[0] == 'bin' and a[1] == 'Lt' and a[2][0] == 'call' and a[2][1].rsplit('::', 1)[-1] in ('len', 'input_len')
+                               and sem.strip_site(a[2][2][0]) == REST and sem.strip_site(a[3]) == shortfall_count for a, t in o.st.pc)
+                v = o.val
+                asks = v[0] == 'ctor' and v[1] == 'Err' and v[2] and v[2][0][0] == 'ctor' and v[2][0][1].rsplit('::', 1)[-1] == 'Incomplete'
+                cause = short_in and asks
             ctx.add('B2.reader-no-extra-rejection', 'parse_length', loc(RL.root), cause,
-                    'the length reader rejects its input on a path where none of its primitives (be_u8, take, parse_uint, conversion to usize) failed: a valid definite length is refused (%s)' %
+                    'the length reader rejects its input on a path where none of its primitives (be_u8, take, parse_uint, conversion to usize) failed - or answers a short buffer with an error instead of Incomplete: a valid definite length is refused, or a frame split inside its length octets kills the connection (%s)' %
                     ', '.join(('' if t else '!') + absx.fmt(a)[:50] for a, t in o.st.pc[-2:]))
         ctx.floor('B2', 'error paths of the length reader', n_rej, 3)
 
